@@ -80,6 +80,8 @@ type c07Seg struct {
 //	drop I       lose it                                         dup I     duplicate it
 //	stale I      re-inject a copy of the I-th message ever sent  expire N  all conversations of node N time out
 //	add N C      node N creates/admits its next C late transactions (C > 100: more than a gossip queue holds)
+//	down N P     the link between node N and its P-th neighbour goes down (both ends get StateDisconnected; what is in flight on it is lost)
+//	up N P T     that link comes up again (both ends get StateConnected); T=1: N sees its peer under a new peer id (the peer restarted)
 //	sync         up to 6 fair rounds (tick all, deliver all, expire) or until all nodes hold the same set
 //	tamper I T C alter a TransactionList in flight: T=0 bad signature, 1 wrong payload, 2 wrong clock, 3 orphan, 4 no payload
 type c07Act struct {
@@ -97,9 +99,10 @@ type c07Case struct {
 	Nodes       int      `json:"nodes"`
 	Line        bool     `json:"line,omitempty"` // 3 nodes connected as a chain 0-1-2 instead of a full mesh
 	Segs        []c07Seg `json:"segs"`
-	Late        []int    `json:"late"`         // per node: how many of its newest transactions are added only after the peers connected
-	MsgKB       int      `json:"msgkb"`        // grpc.MaxMessageSizeInBytes in KiB
-	ExpireEvery int      `json:"expire_every"` // fair suffix: conversations time out every k-th round
+	Named       []bool   `json:"named,omitempty"` // per link (pairs 0-1, 0-2, 1-2): peers present a node DID on this link (default: anonymous peers)
+	Late        []int    `json:"late"`            // per node: how many of its newest transactions are added only after the peers connected
+	MsgKB       int      `json:"msgkb"`           // grpc.MaxMessageSizeInBytes in KiB
+	ExpireEvery int      `json:"expire_every"`    // fair suffix: conversations time out every k-th round
 	Sched       []c07Act `json:"sched"`
 }
 
@@ -292,6 +295,61 @@ func c07Gen(t *rapid.T) c07Case {
 		}
 		c.Sched = append(c.Sched, a)
 	}
+
+	// links: with or without node DID; 0-3 flaps per link at generated points, with transactions created while the link is
+	// down and after it came back
+	pairs := 1
+	if c.Nodes == 3 {
+		pairs = 3
+	}
+	for k := 0; k < pairs; k++ {
+		c.Named = append(c.Named, rapid.Bool().Draw(t, "named"))
+	}
+	if rapid.IntRange(0, 2).Draw(t, "flappy") > 0 {
+		ins := map[int][]c07Act{}
+		base := len(c.Sched)
+		for i := 0; i < c.Nodes; i++ {
+			pi := -1
+			for j := 0; j < c.Nodes; j++ {
+				if !c07Linked(c.Nodes, c.Line, i, j) {
+					continue
+				}
+				pi++ // j is i's pi-th neighbour
+				if j < i {
+					continue
+				}
+				for k := pick("flaps", 0, 1, 1, 2, 3); k > 0; k-- {
+					pos := rapid.IntRange(0, base).Draw(t, "pos")
+					ins[pos] = append(ins[pos], c07Act{K: "down", N: i, P: pi})
+					if n := pick("during", 0, 0, 1, 5, 30); n > 0 {
+						who := pick("who", i, j)
+						ins[pos] = append(ins[pos], c07Act{K: "add", N: who, C: n})
+						if c.Profile != "burst" && c.Late[who] < 20 {
+							c.Late[who] = pick("flate", 20, 60)
+						}
+					}
+					if up := pos + pick("gap", 0, 1, 2, 5, 15, 1<<20); up <= base { // beyond the end: the fair suffix reconnects
+						ins[up] = append(ins[up], c07Act{K: "up", N: i, P: pi, T: pick("newid", 0, 0, 0, 1)})
+						if n := pick("after", 0, 0, 1, 5, 30); n > 0 {
+							who := pick("who2", i, j)
+							ins[up] = append(ins[up], c07Act{K: "add", N: who, C: n})
+							if c.Profile != "burst" && c.Late[who] < 20 {
+								c.Late[who] = pick("flate2", 20, 60)
+							}
+						}
+					}
+				}
+			}
+		}
+		var merged []c07Act
+		for idx := 0; idx <= base; idx++ {
+			merged = append(merged, ins[idx]...)
+			if idx < base {
+				merged = append(merged, c.Sched[idx])
+			}
+		}
+		c.Sched = merged
+	}
 	return c
 }
 
@@ -320,6 +378,10 @@ type c07Conn struct {
 }
 
 func (c *c07Conn) Send(_ grpc.Protocol, envelope interface{}, _ bool) error {
+	if !c.Open || c.f.down[c.from][c.to] {
+		c.f.sendOnDownLink++
+		return grpc.ErrNoConnection
+	}
 	c.f.send(c.from, c.to, envelope.(*Envelope))
 	return nil
 }
@@ -359,29 +421,34 @@ type c07Node struct {
 	kv    stoabs.KVStore
 	p     *protocol
 	conns []*c07Conn // by destination node (nil for self)
+	cl    *c07ConnList
 	have  map[hash.SHA256Hash]bool
 	fold  hash.SHA256Hash
 	late  []int // indices of transactions still to be created/admitted locally
 }
 
 type c07Fix struct {
-	x        *h.Ctx
-	c        c07Case
-	ctx      context.Context
-	txs      []c07Tx
-	valid    map[hash.SHA256Hash]int    // ref -> index in txs
-	invalid  map[hash.SHA256Hash]string // refs of transactions the harness forged -> kind
-	unionXor hash.SHA256Hash
-	maxClock uint32
-	nodes    []*c07Node
-	peers    []transport.Peer
-	inflight []c07Msg
-	history  []c07Msg
-	seq      int
-	msgMax   int
-	step     int
-	stepWhat string
-	phase    string
+	x                                                                   *h.Ctx
+	c                                                                   c07Case
+	ctx                                                                 context.Context
+	txs                                                                 []c07Tx
+	valid                                                               map[hash.SHA256Hash]int    // ref -> index in txs
+	invalid                                                             map[hash.SHA256Hash]string // refs of transactions the harness forged -> kind
+	unionXor                                                            hash.SHA256Hash
+	maxClock                                                            uint32
+	nodes                                                               []*c07Node
+	peerOf                                                              [][]transport.Peer // peerOf[i][j]: node j as node i sees it (peer id, address, node DID or none)
+	down                                                                [][]bool           // down[i][j]: the link i-j is currently down
+	epoch                                                               [][]int            // epoch[i][j]: how often node i saw node j come back under a new peer id
+	flaps, addsWhileDown, addsAfterReconnect, sendOnDownLink, deadTicks int
+	everReconnected                                                     bool
+	inflight                                                            []c07Msg
+	history                                                             []c07Msg
+	seq                                                                 int
+	msgMax                                                              int
+	step                                                                int
+	stepWhat                                                            string
+	phase                                                               string
 
 	dropped, duplicated, reordered, staleInj, tampered, oversize, handlerErrs, delivered int
 	badPayloadRefs                                                                       map[hash.SHA256Hash]bool
@@ -507,6 +574,7 @@ func (f *c07Fix) newNode(i int) *c07Node {
 	p.cMan = newConversationManager(time.Hour) // what Start() does, minus the eviction ticker: time is data here
 	n.p = p
 	x.Cleanup(func() {
+		gossip.VerifC07Forget(p.gManager)
 		p.cancel()
 		_ = st.Shutdown()
 		_ = kv.Close(context.Background())
@@ -537,7 +605,17 @@ func (f *c07Fix) setup() {
 	c := f.c
 	for i := 0; i < c.Nodes; i++ {
 		f.nodes = append(f.nodes, f.newNode(i))
-		f.peers = append(f.peers, transport.Peer{ID: transport.PeerID(fmt.Sprintf("verif-node-%d", i)), Address: fmt.Sprintf("verif-node-%d:5555", i)})
+	}
+	f.peerOf = make([][]transport.Peer, c.Nodes)
+	f.down = make([][]bool, c.Nodes)
+	f.epoch = make([][]int, c.Nodes)
+	for i := 0; i < c.Nodes; i++ {
+		f.peerOf[i] = make([]transport.Peer, c.Nodes)
+		f.down[i] = make([]bool, c.Nodes)
+		f.epoch[i] = make([]int, c.Nodes)
+		for j := 0; j < c.Nodes; j++ {
+			f.peerOf[i][j] = f.makePeer(i, j)
+		}
 	}
 	for _, n := range f.nodes {
 		n.conns = make([]*c07Conn, c.Nodes)
@@ -546,9 +624,10 @@ func (f *c07Fix) setup() {
 			if !f.linked(n.i, j) {
 				continue
 			}
-			n.conns[j] = &c07Conn{StubConnection: grpc.NewStubConnection(f.peers[j]), f: f, from: n.i, to: j}
+			n.conns[j] = &c07Conn{StubConnection: grpc.NewStubConnection(f.peerOf[n.i][j]), f: f, from: n.i, to: j}
 			cl.conns = append(cl.conns, n.conns[j])
 		}
+		n.cl = cl
 		n.p.connectionList = cl
 	}
 	// initial DAGs: each node admits the transactions it owns, in creation order (a linear extension), except its newest
@@ -580,10 +659,125 @@ func (f *c07Fix) setup() {
 	for _, n := range f.nodes {
 		for j := 0; j < c.Nodes; j++ {
 			if f.linked(n.i, j) {
-				n.p.connectionStateCallback(f.peers[j], transport.StateConnected, n.p)
+				f.connect(n, j)
+				if !gossip.VerifC07Tick(n.p.gManager, f.peerOf[n.i][j]) { // harness self-check (queues are empty: a Gossip without refs)
+					f.x.Fatalf("gossip tick hook: node %d has no live ticker for peer %d right after the first connect", n.i, j)
+				}
 			}
 		}
 	}
+	f.inflight, f.history = nil, nil // the self-check's Gossip messages are not part of the scenario
+}
+
+// makePeer is node j as node i sees it on their link.
+func (f *c07Fix) makePeer(i, j int) transport.Peer {
+	id := fmt.Sprintf("verif-node-%d", j)
+	if e := f.epoch[i][j]; e > 0 {
+		id = fmt.Sprintf("verif-node-%d-restart-%d", j, e)
+	}
+	p := transport.Peer{ID: transport.PeerID(id), Address: fmt.Sprintf("verif-node-%d:5555", j)}
+	if f.named(i, j) {
+		p.NodeDID = did.MustParseDID(fmt.Sprintf("did:nuts:verifnode%d", j))
+		p.Authenticated = true
+	}
+	return p
+}
+
+// named: the peers on link i-j present a node DID (else they are anonymous, which is legitimate for public transactions).
+func (f *c07Fix) named(i, j int) bool {
+	if i > j {
+		i, j = j, i
+	}
+	k := i + j - 1 // pairs 0-1, 0-2, 1-2 -> 0, 1, 2
+	if i == j || k < 0 || k >= len(f.c.Named) {
+		return false
+	}
+	return f.c.Named[k]
+}
+
+// connect is what the connection manager's observer does at node n when the v2 stream to node j is up.
+func (f *c07Fix) connect(n *c07Node, j int) {
+	n.p.connectionStateCallback(f.peerOf[n.i][j], transport.StateConnected, n.p)
+	gossip.VerifC07Arm(n.p.gManager, f.peerOf[n.i][j]) // the tick hook now stands in for the ticker PeerConnected started (if it did)
+}
+
+// linkDown: both ends observe the disconnect; messages on the wire of that link are lost with the stream.
+func (f *c07Fix) linkDown(i, j int) {
+	if !f.linked(i, j) || f.down[i][j] {
+		return
+	}
+	f.down[i][j], f.down[j][i] = true, true
+	f.flaps++
+	kept := f.inflight[:0:0]
+	lost := 0
+	for _, m := range f.inflight {
+		if (m.from == i && m.to == j) || (m.from == j && m.to == i) {
+			lost++
+			continue
+		}
+		kept = append(kept, m)
+	}
+	f.inflight = kept
+	if lost > 0 {
+		f.x.Class("link: went down with messages in flight")
+	}
+	for _, e := range [][2]int{{i, j}, {j, i}} {
+		n := f.nodes[e[0]]
+		n.conns[e[1]].Open = false
+		n.p.connectionStateCallback(f.peerOf[e[0]][e[1]], transport.StateDisconnected, n.p)
+	}
+}
+
+// linkUp: the link comes back. newID: node i sees node j under a new peer id (j's network layer restarted).
+func (f *c07Fix) linkUp(i, j int, newID bool) {
+	if !f.linked(i, j) || !f.down[i][j] {
+		return
+	}
+	f.down[i][j], f.down[j][i] = false, false
+	f.everReconnected = true
+	if newID {
+		f.epoch[i][j]++
+		f.peerOf[i][j] = f.makePeer(i, j)
+		f.x.Class("link: reconnect under a new peer id")
+	} else {
+		f.x.Class("link: reconnect with the same peer id and address")
+	}
+	for _, e := range [][2]int{{i, j}, {j, i}} {
+		n := f.nodes[e[0]]
+		nc := &c07Conn{StubConnection: grpc.NewStubConnection(f.peerOf[e[0]][e[1]]), f: f, from: e[0], to: e[1]}
+		for k, c := range n.cl.conns {
+			if c == grpc.Connection(n.conns[e[1]]) {
+				n.cl.conns[k] = nc
+			}
+		}
+		n.conns[e[1]] = nc
+		f.connect(n, e[1])
+	}
+}
+
+// c07Linked is the topology: full mesh, or (line) the chain 0-1-2.
+func c07Linked(nodes int, line bool, i, j int) bool {
+	if i == j || i < 0 || j < 0 || i >= nodes || j >= nodes {
+		return false
+	}
+	if line && nodes == 3 {
+		return i == 1 || j == 1
+	}
+	return true
+}
+
+// neighbour returns the P-th node node i has a link to.
+func (f *c07Fix) neighbour(i, p int) int {
+	var peers []int
+	for j := 0; j < f.c.Nodes; j++ {
+		if f.linked(i, j) {
+			peers = append(peers, j)
+		}
+	}
+	if p < 0 {
+		p = -p
+	}
+	return peers[p%len(peers)]
 }
 
 func c07Kind(env *Envelope) string {
@@ -703,22 +897,15 @@ func (f *c07Fix) flush(bound int) bool {
 
 // linked tells whether nodes i and j have a connection: full mesh, or (Line) the chain 0-1-2 in which 0 and 2 only hear of
 // each other's transactions through node 1.
-func (f *c07Fix) linked(i, j int) bool {
-	if i == j {
-		return false
-	}
-	if f.c.Line && f.c.Nodes == 3 {
-		return i == 1 || j == 1
-	}
-	return true
-}
+func (f *c07Fix) linked(i, j int) bool { return c07Linked(f.c.Nodes, f.c.Line, i, j) }
 
 func (f *c07Fix) tick(n *c07Node, peer int) {
 	if !f.linked(n.i, peer) {
 		return
 	}
-	if !gossip.VerifC07Tick(n.p.gManager, f.peers[peer]) {
-		f.x.Fatalf("gossip tick hook: node %d has no queue for peer %d", n.i, peer)
+	if !gossip.VerifC07Tick(n.p.gManager, f.peerOf[n.i][peer]) && !f.down[n.i][peer] {
+		// the link is up but PeerConnected left no running ticker for it: nothing is gossiped (the liveness oracle judges the outcome)
+		f.deadTicks++
 	}
 }
 
@@ -755,6 +942,19 @@ func (f *c07Fix) addLate(n *c07Node, k int) {
 		f.x.Class("burst: >100 transactions created between two ticks")
 		if f.sameSets() {
 			f.x.Class("burst: >100 transactions created between two ticks while all nodes were in sync")
+		}
+	}
+	if k > 0 && len(n.late) > 0 {
+		anyDown := false
+		for j := range f.nodes {
+			if f.linked(n.i, j) && f.down[n.i][j] {
+				anyDown = true
+			}
+		}
+		if anyDown {
+			f.addsWhileDown++
+		} else if f.everReconnected {
+			f.addsAfterReconnect++
 		}
 	}
 	for ; k > 0 && len(n.late) > 0; k-- {
@@ -888,13 +1088,7 @@ func (f *c07Fix) act(a c07Act) {
 	switch a.K {
 	case "tick":
 		n := f.nodes[a.N%c.Nodes]
-		var peers []int
-		for j := 0; j < c.Nodes; j++ {
-			if f.linked(n.i, j) {
-				peers = append(peers, j)
-			}
-		}
-		f.tick(n, peers[a.P%len(peers)])
+		f.tick(n, f.neighbour(n.i, a.P))
 	case "tickall":
 		f.tickAll()
 	case "deliver":
@@ -935,6 +1129,9 @@ func (f *c07Fix) act(a c07Act) {
 			return
 		}
 		m := f.history[c07Select(f.history, a)]
+		if f.down[m.from][m.to] {
+			return // nothing can arrive over a link that is down
+		}
 		f.seq++
 		m.seq = f.seq
 		f.inflight = append(f.inflight, m)
@@ -944,6 +1141,10 @@ func (f *c07Fix) act(a c07Act) {
 		f.expire(f.nodes[a.N%c.Nodes])
 	case "add":
 		f.addLate(f.nodes[a.N%c.Nodes], a.C)
+	case "down":
+		f.linkDown(a.N%c.Nodes, f.neighbour(a.N%c.Nodes, a.P))
+	case "up":
+		f.linkUp(a.N%c.Nodes, f.neighbour(a.N%c.Nodes, a.P), a.T%2 == 1)
 	case "sync":
 		f.phase = "sync action"
 		for r := 1; r <= 6 && !f.sameSets(); r++ {
@@ -1228,10 +1429,66 @@ func c07Run(x *h.Ctx, c c07Case) {
 	}
 
 	// fair suffix: what is still local-only gets created, then rounds
+	// Links that are down now come up again first (same peer id and address): the round bound counts fair rounds with all links
+	// up only; rounds run while a link was down belong to the schedule and are not counted. Half of what is still uncreated is
+	// created while those links are still down, the rest after the reconnect.
 	f.phase = "suffix"
+	f.stepWhat = "suffix start"
+	anyDown := false
+	for i := range f.nodes {
+		for j := range f.nodes {
+			anyDown = anyDown || (f.linked(i, j) && f.down[i][j])
+		}
+	}
+	if anyDown {
+		x.Class("link: still down at the end of the schedule (suffix reconnects)")
+		for _, n := range f.nodes {
+			f.addLate(n, (len(n.late)+1)/2)
+		}
+		for i := range f.nodes {
+			for j := i + 1; j < len(f.nodes); j++ {
+				f.linkUp(i, j, false)
+			}
+		}
+	}
 	for _, n := range f.nodes {
 		f.stepWhat = "late add at suffix start"
 		f.addLate(n, len(n.late))
+	}
+	switch {
+	case f.flaps == 0:
+		x.Class("flaps:0")
+	case f.flaps <= 2:
+		x.Classf("flaps:%d", f.flaps)
+	default:
+		x.Class("flaps:>=3")
+	}
+	anon, named := false, false
+	for i := range f.nodes {
+		for j := i + 1; j < len(f.nodes); j++ {
+			if f.linked(i, j) {
+				if f.named(i, j) {
+					named = true
+				} else {
+					anon = true
+				}
+			}
+		}
+	}
+	if anon {
+		x.Class("link: anonymous peers (no node DID)")
+	}
+	if named {
+		x.Class("link: peers with node DID")
+	}
+	if f.addsWhileDown > 0 {
+		x.Class("link: transactions created while a link was down")
+	}
+	if f.addsAfterReconnect > 0 {
+		x.Class("link: transactions created after a reconnect")
+	}
+	if f.sendOnDownLink > 0 {
+		x.Class("link: send attempted on a link that is down")
 	}
 	f.cheapCheck()
 	hops := 1
@@ -1296,6 +1553,9 @@ func c07Run(x *h.Ctx, c c07Case) {
 		}
 		if storm {
 			sig += ":message-storm"
+		}
+		if f.deadTicks > 0 {
+			sig += ":link-up-without-gossip-ticker"
 		}
 		x.Violate(sig, "no convergence to the union: gave up after %s; %d deliveries in the suffix (R=%d, expire every %d, %d pages, %d oversize messages refused, %d handler errors): %s messages sent: %s",
 			gaveUp, f.delivered-startDelivered, R, c.ExpireEvery, pages, f.oversize, f.handlerErrs, f.describe(), f.kindSummary())
